@@ -123,10 +123,25 @@ func (m *Thread) Run() {
 	if err != nil {
 		core.LogFatal(m, "Unable to create name for management prefix: ", err)
 	}
-	table.FibStrategyTable.InsertNextHopEnc(faces, m.face.FaceID(), 0)
+	// The management prefixes are routes of the RIB, like every other route: the RIB owns
+	// the FIB entries of the names it has routes for and rewrites them as a whole. A next
+	// hop that is written into the FIB behind its back is lost as soon as somebody registers
+	// a route for /localhost/nfd (replaced) or unregisters it again (cleared), and a longer
+	// registered prefix (/localhost/nfd/faces) does not inherit it. If the registered route
+	// points to a non-local face, every management Interest of a local application is then
+	// dropped by the /localhost scope check, although the internal face is still there.
+	mgmtRoute := func() *table.Route {
+		return &table.Route{
+			FaceID: m.face.FaceID(),
+			Origin: table.RouteOriginStatic,
+			Cost:   0,
+			Flags:  table.RouteFlagChildInherit,
+		}
+	}
+	table.Rib.AddEncRoute(faces, mgmtRoute())
 	if enableLocalhopManagement {
 		add1, _ := enc.NameFromStr("/localhop/nfd")
-		table.FibStrategyTable.InsertNextHopEnc(add1, m.face.FaceID(), 0)
+		table.Rib.AddEncRoute(add1, mgmtRoute())
 	}
 	for {
 		fragment, pitToken, inFace := m.transport.Receive()
